@@ -1516,4 +1516,392 @@ theorem pileup_events_WF (I : List Iv) (size : Nat) : (pileupEvents I size).WF :
     rw [hPc, hv]; simp
   · rw [hPc, hv]; rfl
 
+/-! ## count_overlap / intersect: the "independently sorted starts and stops" formulas -/
+
+/-- pairs `(start, stop)` whose starts and whose stops are both sorted: the number of pairs containing `x`
+is (#starts ≤ x) − (#stops ≤ x) -/
+theorem cov_sorted_pairs (Z : List Iv) (x : Nat) (h1 : (Z.map (·.1)).Pairwise (· ≤ ·)) (h2 : (Z.map (·.2)).Pairwise (· ≤ ·)) :
+    cov Z x = Z.countP (fun z => decide (z.1 ≤ x)) - Z.countP (fun z => decide (z.2 ≤ x)) := by
+  induction Z with
+  | nil => rfl
+  | cons z Z ih =>
+    simp only [List.map_cons] at h1 h2
+    have ih' := ih (List.pairwise_cons.1 h1).2 (List.pairwise_cons.1 h2).2
+    have hs : ∀ y ∈ Z, z.1 ≤ y.1 := fun y hy => (List.pairwise_cons.1 h1).1 y.1 (List.mem_map_of_mem hy)
+    have he : ∀ y ∈ Z, z.2 ≤ y.2 := fun y hy => (List.pairwise_cons.1 h2).1 y.2 (List.mem_map_of_mem hy)
+    simp only [cov, List.countP_cons] at ih' ⊢
+    simp only [inIv]
+    by_cases hx : x < z.2
+    · -- no stop is ≤ x
+      have hE : Z.countP (fun z => decide (z.2 ≤ x)) = 0 := by
+        apply List.countP_eq_zero.2
+        intro y hy; have := he y hy; simp; omega
+      have hcov : Z.countP (inIv x) = Z.countP (fun z => decide (z.1 ≤ x)) := by
+        apply List.countP_congr
+        intro y hy; have := he y hy
+        simp only [inIv, Bool.and_eq_true, decide_eq_true_eq]
+        constructor
+        · exact fun h => h.1
+        · exact fun h => ⟨h, by omega⟩
+      rw [hE, hcov]
+      have h4 : ¬ z.2 ≤ x := by omega
+      by_cases h3 : z.1 ≤ x <;> simp [h3, hx, h4]
+    · by_cases h3 : z.1 ≤ x
+      · simp only [h3, hx, decide_true, decide_false, Bool.and_false, Bool.false_eq_true, if_false, if_true,
+          show z.2 ≤ x from by omega]
+        omega
+      · -- no start is ≤ x
+        have hS : Z.countP (fun z => decide (z.1 ≤ x)) = 0 := by
+          apply List.countP_eq_zero.2
+          intro y hy; have := hs y hy; simp; omega
+        have hcov : Z.countP (inIv x) = 0 := by
+          apply List.countP_eq_zero.2
+          intro y hy; have := hs y hy; simp [inIv]; omega
+        rw [hS, hcov]
+        simp [h3]
+
+theorem natLe_total (a b : Nat) : natLe a b = true ∨ natLe b a = true := by
+  simp only [natLe, decide_eq_true_eq]; omega
+
+theorem natLe_trans (a b c : Nat) : natLe a b = true → natLe b c = true → natLe a c = true := by
+  simp only [natLe, decide_eq_true_eq]; omega
+
+theorem isort_natLe_sorted (l : List Nat) : (isort natLe l).Pairwise (· ≤ ·) :=
+  (isort_pairwise natLe natLe_total natLe_trans l).imp (by simp [natLe])
+
+theorem countLe_isort (l : List Nat) (x : Nat) :
+    (isort natLe l).countP (fun s => decide (s ≤ x)) = l.countP (fun s => decide (s ≤ x)) :=
+  (isort_perm natLe l).countP_eq _
+
+theorem zipWith_dropLast_right {α β γ : Type} (f : α → β → γ) : ∀ (l : List α) (m : List β), l.length < m.length →
+    List.zipWith f l m.dropLast = List.zipWith f l m := by
+  intro l m
+  induction m generalizing l with
+  | nil => intro h; simp at h
+  | cons b m ih =>
+    intro h
+    cases m with
+    | nil => cases l with
+      | nil => rfl
+      | cons a l => simp at h
+    | cons c m =>
+      cases l with
+      | nil => simp
+      | cons a l =>
+        simp only [List.dropLast_cons_cons, List.zipWith_cons_cons]
+        rw [ih l (by simpa using h)]
+
+theorem zip_dropLast_right {α β : Type} (l : List α) (m : List β) (h : l.length < m.length) :
+    l.zip m.dropLast = l.zip m := by
+  simp only [List.zip]; exact zipWith_dropLast_right _ l m h
+
+theorem countLe_sorted_zero (l : List Nat) (h : Nat) (x : Nat) (hs : (h :: l).Pairwise (· ≤ ·)) (hx : x < h) :
+    (h :: l).countP (fun s => decide (s ≤ x)) = 0 := by
+  apply List.countP_eq_zero.2
+  intro y hy
+  rcases List.mem_cons.1 hy with rfl | hy
+  · simp; omega
+  · have := (List.pairwise_cons.1 hs).1 y hy; simp; omega
+
+theorem countLe_sorted_all (l : List Nat) (x : Nat) (hs : l.Pairwise (· ≤ ·)) (hne : l ≠ []) (hx : l.getLast hne ≤ x) :
+    l.countP (fun s => decide (s ≤ x)) = l.length := by
+  apply List.countP_eq_length.2
+  intro y hy
+  have h1 : l.dropLast ++ [l.getLast hne] = l := List.dropLast_concat_getLast hne
+  rw [← h1] at hs hy
+  rcases List.mem_append.1 hy with hy | hy
+  · have := (List.pairwise_append.1 hs).2.2 y hy (l.getLast hne) (by simp); simp; omega
+  · simp only [List.mem_singleton] at hy; simp; omega
+
+/-- **key identity**: pairing the (i+1)-th smallest start with the i-th smallest stop gives intervals that cover
+every base exactly `depth − 1` times (0 where the depth is 0) -/
+theorem cov_pairing (I : List Iv) (h : ∀ iv ∈ I, iv.1 ≤ iv.2) (x : Nat) :
+    cov ((isort natLe (I.map (·.1))).tail.zip (isort natLe (I.map (·.2)))) x = cov I x - 1 := by
+  obtain ⟨st, hst⟩ : ∃ st, st = isort natLe (I.map (·.1)) := ⟨_, rfl⟩
+  obtain ⟨sp, hsp⟩ : ∃ sp, sp = isort natLe (I.map (·.2)) := ⟨_, rfl⟩
+  rw [← hst, ← hsp]
+  have hstS : st.Pairwise (· ≤ ·) := hst ▸ isort_natLe_sorted _
+  have hspS : sp.Pairwise (· ≤ ·) := hsp ▸ isort_natLe_sorted _
+  have hlen1 : st.length = I.length := by rw [hst, (isort_perm natLe _).length_eq]; simp
+  have hlen2 : sp.length = I.length := by rw [hsp, (isort_perm natLe _).length_eq]; simp
+  have hS : st.countP (fun s => decide (s ≤ x)) = I.countP (fun iv => decide (iv.1 ≤ x)) := by
+    rw [hst, countLe_isort, List.countP_map]; rfl
+  have hE : sp.countP (fun s => decide (s ≤ x)) = I.countP (fun iv => decide (iv.2 ≤ x)) := by
+    rw [hsp, countLe_isort, List.countP_map]; rfl
+  have hdepth := cov_eq_counts' I x h
+  rw [← hS, ← hE] at hdepth
+  cases hst' : st with
+  | nil =>
+    have : I = [] := by cases I with
+      | nil => rfl
+      | cons a I => rw [hst'] at hlen1; simp at hlen1
+    subst this; simp [cov]
+  | cons s0 st' =>
+    have hspne : sp ≠ [] := by
+      intro h0; rw [h0] at hlen2; rw [hst'] at hlen1
+      simp only [List.length_cons, List.length_nil] at hlen1 hlen2; omega
+    have hzip : (s0 :: st').tail.zip sp = st'.zip sp.dropLast := by
+      rw [List.tail_cons, zip_dropLast_right st' sp (by rw [hst'] at hlen1; simp at hlen1; omega)]
+    rw [hzip]
+    have hl : st'.length = sp.dropLast.length := by
+      rw [List.length_dropLast]; rw [hst', List.length_cons] at hlen1; omega
+    rw [hst'] at hstS hS hdepth
+    have hspD : sp.dropLast.Pairwise (· ≤ ·) := List.Pairwise.sublist (List.dropLast_sublist sp) hspS
+    rw [cov_sorted_pairs _ x (by rw [List.map_fst_zip (by omega)]; exact (List.pairwise_cons.1 hstS).2)
+      (by rw [List.map_snd_zip (by omega)]; exact hspD)]
+    have c1 : (st'.zip sp.dropLast).countP (fun z => decide (z.1 ≤ x)) = st'.countP (fun s => decide (s ≤ x)) := by
+      have := List.countP_map (p := fun s => decide (s ≤ x)) (f := Prod.fst) (l := st'.zip sp.dropLast)
+      rw [List.map_fst_zip (by omega)] at this
+      rw [this]; rfl
+    have c2 : (st'.zip sp.dropLast).countP (fun z => decide (z.2 ≤ x)) = sp.dropLast.countP (fun s => decide (s ≤ x)) := by
+      have := List.countP_map (p := fun s => decide (s ≤ x)) (f := Prod.snd) (l := st'.zip sp.dropLast)
+      rw [List.map_snd_zip (by omega)] at this
+      rw [this]; rfl
+    rw [c1, c2]
+    have hsplit : sp.countP (fun s => decide (s ≤ x)) =
+        sp.dropLast.countP (fun s => decide (s ≤ x)) + (if sp.getLast hspne ≤ x then 1 else 0) := by
+      conv => lhs; rw [← List.dropLast_concat_getLast hspne]
+      rw [List.countP_append]; simp [List.countP_cons]
+    have hScons : (s0 :: st').countP (fun s => decide (s ≤ x)) =
+        st'.countP (fun s => decide (s ≤ x)) + (if s0 ≤ x then 1 else 0) := by
+      simp [List.countP_cons]
+    have hSle : (s0 :: st').countP (fun s => decide (s ≤ x)) ≤ (s0 :: st').length := List.countP_le_length
+    have hn : (s0 :: st').length = sp.length := by rw [hst'] at hlen1; omega
+    by_cases h0 : s0 ≤ x
+    · by_cases hL : sp.getLast hspne ≤ x
+      · have := countLe_sorted_all sp x hspS hspne hL
+        rw [if_pos hL] at hsplit; rw [if_pos h0] at hScons
+        omega
+      · rw [if_neg hL] at hsplit; rw [if_pos h0] at hScons
+        omega
+    · have hz := countLe_sorted_zero st' s0 x hstS (by omega)
+      by_cases hL : sp.getLast hspne ≤ x
+      · have := countLe_sorted_all sp x hspS hspne hL
+        have : 0 < sp.length := List.length_pos_iff.2 hspne
+        rw [if_pos hL] at hsplit
+        omega
+      · rw [if_neg hL] at hsplit; rw [if_neg h0] at hScons
+        omega
+
+theorem cov_append (A B : List Iv) (x : Nat) : cov (A ++ B) x = cov A x + cov B x := by
+  simp [cov, List.countP_append]
+
+theorem cov_filter_nonempty' (Z : List Iv) (x : Nat) : cov (Z.filter (fun p => decide (p.2 > p.1))) x = cov Z x := by
+  induction Z with
+  | nil => rfl
+  | cons z Z ih =>
+    simp only [List.filter_cons]
+    split
+    · simp only [cov, List.countP_cons] at ih ⊢; rw [ih]
+    · rename_i h
+      simp only [cov, List.countP_cons] at ih ⊢
+      rw [ih]
+      have : inIv x z = false := by
+        simp only [gt_iff_lt, decide_eq_true_eq, Nat.not_lt] at h
+        simp only [inIv]
+        cases h1 : decide (z.1 ≤ x) <;> cases h2 : decide (x < z.2) <;> simp_all
+        omega
+      simp [this]
+
+/-- `intersect` (for any two interval lists with start ≤ stop): the returned pieces cover every base
+`depth − 1` times, where depth is the number of intervals of `A ++ B` covering it -/
+theorem intersect_depth (A B : List Iv) (h : ∀ iv ∈ A ++ B, iv.1 ≤ iv.2) (x : Nat) :
+    cov (intersect A B) x = cov (A ++ B) x - 1 := by
+  simp only [intersect]
+  rw [cov_filter_nonempty', ← List.map_append, ← List.map_append]
+  exact cov_pairing (A ++ B) h x
+
+theorem disjointSorted_pairwise (L : List Iv) (h : disjointSorted L = true) :
+    L.Pairwise (fun a b => a.2 ≤ b.1) ∧ ∀ a ∈ L, a.1 < a.2 := by
+  induction L with
+  | nil => simp
+  | cons a L ih =>
+    cases L with
+    | nil => simp [disjointSorted] at h ⊢; exact h
+    | cons b L =>
+      simp only [disjointSorted, Bool.and_eq_true, decide_eq_true_eq] at h
+      obtain ⟨⟨h1, h2⟩, h3⟩ := h
+      obtain ⟨ih1, ih2⟩ := ih h3
+      refine ⟨List.pairwise_cons.2 ⟨?_, ih1⟩, ?_⟩
+      · intro c hc
+        rcases List.mem_cons.1 hc with rfl | hc
+        · exact h2
+        · have := (List.pairwise_cons.1 ih1).1 c hc
+          have := ih2 b (by simp)
+          omega
+      · intro c hc
+        rcases List.mem_cons.1 hc with rfl | hc
+        · exact h1
+        · exact ih2 c hc
+
+theorem cov_le_one_of_pairwise (L : List Iv) (h1 : L.Pairwise (fun a b => a.2 ≤ b.1)) (h2 : ∀ a ∈ L, a.1 < a.2) (x : Nat) :
+    cov L x ≤ 1 := by
+  induction L with
+  | nil => simp [cov]
+  | cons a L ih =>
+    have ih' := ih (List.pairwise_cons.1 h1).2 (fun b hb => h2 b (by simp [hb]))
+    simp only [cov, List.countP_cons] at ih' ⊢
+    by_cases hin : inIv x a = true
+    · have : L.countP (inIv x) = 0 := by
+        apply List.countP_eq_zero.2
+        intro b hb
+        have := (List.pairwise_cons.1 h1).1 b hb
+        simp only [inIv, Bool.and_eq_true, decide_eq_true_eq] at hin ⊢
+        omega
+      rw [this]; simp [hin]
+    · simp [hin]; exact ih'
+
+theorem cov_perm {I J : List Iv} (h : I.Perm J) (x : Nat) : cov I x = cov J x := h.countP_eq _
+
+theorem cov_le_one (A : List Iv) (h : internallyDisjoint A = true) (x : Nat) : cov A x ≤ 1 := by
+  obtain ⟨h1, h2⟩ := disjointSorted_pairwise _ h
+  rw [← cov_perm (isort_perm startLe A) x]
+  exact cov_le_one_of_pairwise _ h1 h2 x
+
+theorem internallyDisjoint_le (A : List Iv) (h : internallyDisjoint A = true) : ∀ iv ∈ A, iv.1 ≤ iv.2 := by
+  intro iv hiv
+  have := (disjointSorted_pairwise _ h).2 iv ((isort_perm startLe A).mem_iff.2 hiv)
+  omega
+
+/-- **intersect** on internally non-overlapping operands: every base covered by both `A` and `B` is covered by
+exactly one returned piece, every other base by none -/
+theorem intersect_perbase (A B : List Iv) (dA : internallyDisjoint A = true) (dB : internallyDisjoint B = true) (x : Nat) :
+    cov (intersect A B) x = if 0 < cov A x ∧ 0 < cov B x then 1 else 0 := by
+  rw [intersect_depth A B (fun iv hiv => by
+    rcases List.mem_append.1 hiv with h | h
+    · exact internallyDisjoint_le A dA iv h
+    · exact internallyDisjoint_le B dB iv h) x, cov_append]
+  have := cov_le_one A dA x
+  have := cov_le_one B dB x
+  split <;> omega
+
+theorem count_range_interval (s e : Nat) : ∀ n, (List.range n).countP (fun x => inIv x (s, e)) = min e n - s := by
+  intro n
+  induction n with
+  | zero => simp
+  | succ n ih =>
+    rw [List.range_succ, List.countP_append, ih]
+    simp only [List.countP_cons, List.countP_nil, inIv, Nat.zero_add]
+    by_cases h : s ≤ n ∧ n < e
+    · simp [h.1, h.2]; omega
+    · have : (decide (s ≤ n) && decide (n < e)) = false := by
+        simp only [Bool.and_eq_false_imp, decide_eq_true_eq, decide_eq_false_iff_not]
+        intro h1 h2; exact h ⟨h1, h2⟩
+      simp [this]; omega
+
+theorem countP_eq_sum_ite {α : Type} (p : α → Bool) (l : List α) :
+    l.countP p = (l.map (fun a => if p a then 1 else 0)).sum := by
+  induction l with
+  | nil => rfl
+  | cons a l ih => simp only [List.countP_cons, List.map_cons, List.sum_cons, ih]; omega
+
+theorem sum_map_add {α : Type} (f g : α → Nat) (l : List α) :
+    (l.map (fun a => f a + g a)).sum = (l.map f).sum + (l.map g).sum := by
+  induction l with
+  | nil => rfl
+  | cons a l ih => simp only [List.map_cons, List.sum_cons, ih]; omega
+
+/-- counting covered (interval, base) pairs by intervals or by bases gives the same number -/
+theorem sum_lengths_eq_sum_cov (Z : List Iv) (n : Nat) :
+    (Z.map (fun z => (List.range n).countP (fun x => inIv x z))).sum = ((List.range n).map (fun x => cov Z x)).sum := by
+  induction Z with
+  | nil => simp [cov, List.map_const', List.sum_replicate_nat]
+  | cons z Z ih =>
+    simp only [List.map_cons, List.sum_cons, ih, cov, List.countP_cons]
+    rw [sum_map_add, countP_eq_sum_ite]
+    omega
+
+theorem sum_int_cast (l : List Nat) : (l.map (fun n : Nat => (n : Int))).sum = ((l.sum : Nat) : Int) := by
+  induction l with
+  | nil => rfl
+  | cons a l ih => simp only [List.map_cons, List.sum_cons, ih]; omega
+
+/-- `count_overlap` for any two interval lists inside the contig: the sum of `depth − 1` over the bases -/
+theorem countOverlap_depth (A B : List Iv) (size : Nat) (h : ∀ iv ∈ A ++ B, iv.1 ≤ iv.2 ∧ iv.2 ≤ size) :
+    countOverlap A B = ((((List.range size).map (fun x => cov (A ++ B) x - 1)).sum : Nat) : Int) := by
+  obtain ⟨Z, hZ⟩ : ∃ Z, Z = (isort natLe ((A ++ B).map (·.1))).tail.zip (isort natLe ((A ++ B).map (·.2))) := ⟨_, rfl⟩
+  have hco : countOverlap A B = (Z.map (fun z => ((z.2 - z.1 : Nat) : Int))).sum := by
+    simp only [countOverlap, ← List.map_append]
+    rw [hZ, List.zipWith_comm, ← List.map_uncurry_zip_eq_zipWith]
+    congr 1
+    apply List.map_congr_left
+    intro p _
+    simp only [Function.uncurry]; omega
+  have hle : ∀ z ∈ Z, z.2 ≤ size := by
+    intro z hz
+    rw [hZ] at hz
+    have := (List.of_mem_zip (a := z.1) (b := z.2) hz).2
+    obtain ⟨iv, hiv, h2⟩ := List.mem_map.1 ((isort_perm natLe _).mem_iff.1 this)
+    rw [← h2]; exact (h iv hiv).2
+  rw [hco]
+  have : (Z.map (fun z => ((z.2 - z.1 : Nat) : Int))) = (Z.map (fun z : Iv => z.2 - z.1)).map (fun n : Nat => (n : Int)) := by
+    rw [List.map_map]; rfl
+  rw [this, sum_int_cast]
+  congr 1
+  have hlen : Z.map (fun z : Iv => z.2 - z.1) = Z.map (fun z => (List.range size).countP (fun x => inIv x z)) := by
+    apply List.map_congr_left
+    intro z hz
+    rw [count_range_interval z.1 z.2 size, Nat.min_eq_left (hle z hz)]
+  rw [hlen, sum_lengths_eq_sum_cov]
+  congr 1
+  apply List.map_congr_left
+  intro x _
+  rw [hZ]
+  exact cov_pairing (A ++ B) (fun iv hiv => (h iv hiv).1) x
+
+/-- **count_overlap** on internally non-overlapping operands equals the number of bases covered by both -/
+theorem countOverlap_perbase (A B : List Iv) (size : Nat) (hA : ∀ iv ∈ A, iv.2 ≤ size) (hB : ∀ iv ∈ B, iv.2 ≤ size)
+    (dA : internallyDisjoint A = true) (dB : internallyDisjoint B = true) :
+    countOverlap A B = (specCountOverlap A B size : Int) := by
+  rw [countOverlap_depth A B size (fun iv hiv => by
+    rcases List.mem_append.1 hiv with h | h
+    · exact ⟨internallyDisjoint_le A dA iv h, hA iv h⟩
+    · exact ⟨internallyDisjoint_le B dB iv h, hB iv h⟩)]
+  congr 1
+  rw [specCountOverlap, countP_eq_sum_ite]
+  congr 1
+  apply List.map_congr_left
+  intro x _
+  rw [cov_append]
+  have := cov_le_one A dA x
+  have := cov_le_one B dB x
+  by_cases h1 : 0 < cov A x <;> by_cases h2 : 0 < cov B x <;> simp [h1, h2] <;> omega
+
+example : internallyDisjoint [(5, 8), (0, 3), (3, 4)] = true ∧ internallyDisjoint [(2, 6)] = true := by decide
+
+/-- the exported `get_pileup` is the per-base count, given that the external counting engine is -/
+theorem getPileup_dense (ext : List Iv → Nat → List Nat) (hext : ∀ I size, I ≠ [] → ext I size = specPileup I size)
+    (I : List Iv) (size : Nat) : getPileup ext I size = specPileup I size := by
+  cases I with
+  | nil =>
+    simp only [getPileup, List.isEmpty_nil, if_true, Rle.toDense, runs, List.append_nil, Nat.sub_zero, specPileup]
+    rw [List.range_eq_range']
+    exact (map_range'_const _ 0 0 size (fun p _ _ => rfl)).symm
+  | cons a I => simp [getPileup, hext]
+
+/-- `Geometry.extend_to_size` on several chromosomes: row `i` of the result stays inside the chromosome of row `i` -/
+theorem geoExtend_inside (chromSizes : List Int) (len : Int) (hlen : 0 ≤ len) (rows : List (Nat × Bool × Int × Int))
+    (h : ∀ r ∈ rows, 0 ≤ r.2.2.1 ∧ r.2.2.1 ≤ r.2.2.2 ∧ r.2.2.2 ≤ chromSizes.getD r.1 0)
+    (i : Nat) (hi : i < rows.length) :
+    let o := (geoExtend chromSizes len rows)[i]'(by simpa [geoExtend] using hi)
+    0 ≤ o.1 ∧ o.1 ≤ o.2 ∧ o.2 ≤ chromSizes.getD (rows[i]).1 0 := by
+  simp only [geoExtend, List.getElem_map]
+  have hr := h rows[i] (List.getElem_mem hi)
+  have hk := (kernels_traced (rows[i]).2.1 (rows[i]).2.2.1 (rows[i]).2.2.2 len (chromSizes.getD (rows[i]).1 0)).2.2.2
+  rw [hk]
+  exact (geo_kernels_inside _ _ _ len _ hr.1 hr.2.1 hr.2.2 hlen).1
+
+/-- `Geometry.clip` on several chromosomes: row `i` is clipped to the chromosome of row `i` -/
+theorem geoClip_inside (chromSizes : List Int) (rows : List (Nat × Int × Int))
+    (h : ∀ r ∈ rows, 0 ≤ chromSizes.getD r.1 0 ∧ r.2.1 ≤ r.2.2 ∧ r.2.1 ≤ chromSizes.getD r.1 0 ∧ 0 ≤ r.2.2)
+    (i : Nat) (hi : i < rows.length) :
+    let o := (geoClip chromSizes rows)[i]'(by simpa [geoClip] using hi)
+    0 ≤ o.1 ∧ o.1 ≤ o.2 ∧ o.2 ≤ chromSizes.getD (rows[i]).1 0 := by
+  simp only [geoClip, List.getElem_map]
+  have hr := h rows[i] (List.getElem_mem hi)
+  have hk := (kernels_traced true (rows[i]).2.1 (rows[i]).2.2 0 (chromSizes.getD (rows[i]).1 0)).2.1
+  rw [hk]
+  simp only [Gen.C08.geoClipStart, Gen.C08.geoClipStop]
+  omega
+
 end C08
